@@ -65,9 +65,11 @@ fn case(i: usize, n: usize, rng: &mut Rng) -> Case {
 
 /// six prefix styles; `huge` scales the magnitudes (2^40 at the exact scalar)
 fn prefix(style: u64, n: usize, huge: f64, rng: &mut Rng) -> Vec<f64> {
-    let len = match rng.below(4) {
-        0 => rng.usize(1, n + 1),
-        1 => rng.usize(n, 3 * n + 2),
+    let len = match rng.below(8) {
+        0 | 1 => rng.usize(1, n + 1),
+        2 | 3 => rng.usize(n, 3 * n + 2),
+        // a history of thousands of values: periodic internal bookkeeping must not leak it
+        4 => rng.usize(1500, 4200),
         _ => rng.usize(3 * n, 20 * n + 3),
     };
     match style {
